@@ -270,7 +270,7 @@ func (h *Handler) BlockWithTxHashes(id *BlockID) (*BlockWithTxHashes, *jsonrpc.E
 		return nil, rpcErr
 	}
 
-	txnHashes := make([]*felt.Felt, header.TransactionCount)
+	txnHashes := make([]*felt.Felt, len(blockTxns))
 	for index, txn := range blockTxns {
 		txnHashes[index] = txn.Hash()
 	}
@@ -349,7 +349,7 @@ func (h *Handler) BlockWithTxs(blockID *BlockID) (*BlockWithTxs, *jsonrpc.Error)
 		return nil, rpcErr
 	}
 
-	txs := make([]*Transaction, header.TransactionCount)
+	txs := make([]*Transaction, len(blockTxns))
 	for index, txn := range blockTxns {
 		txs[index] = AdaptTransaction(txn)
 	}
